@@ -1273,7 +1273,15 @@ def rule_kpm_numerics(rep: Report, repo: Repo):
         want = {f"hamiltonian @ {SOL}": 1, f"energy * {SOL}": -1, "vector": 1}
         ok = t2 == want or t2 == {k: -v for k, v in want.items()}
     rep.check(ok, R, "kpm::greens_function accepts the solution by the residual of (E - H) x = v", detail, loc(g))
-    warn_ifs = [n for n in lp.body if isinstance(n, ast.If) and norm(canon(n.test)) == "max_moments < num_moments"]
+    # the number of moments of the current turn: the local the loop multiplies at its end (`n *= 4`)
+    growing = [n.target.id for n in lp.body if isinstance(n, ast.AugAssign) and isinstance(n.op, ast.Mult) and isinstance(n.target, ast.Name)
+               and isinstance(n.value, ast.Constant)] + \
+              [n.targets[0].id for n in lp.body if isinstance(n, ast.Assign) and isinstance(n.targets[0], ast.Name) and isinstance(n.value, ast.BinOp)
+               and isinstance(n.value.op, ast.Mult) and norm(n.value.left) == n.targets[0].id and isinstance(n.value.right, ast.Constant)]
+    if len(set(growing)) != 1:
+        raise AnalysisError(R, "kpm.greens_function: the growing number of moments was not found")
+    NM = growing[0]
+    warn_ifs = [n for n in lp.body if isinstance(n, ast.If) and norm(canon(n.test)) == f"max_moments < {NM}"]
     ok2 = len(warn_ifs) == 1 and any(isinstance(x, ast.Call) and call_name(x) == "warn" and "RuntimeWarning" in norm(x) for x in ast.walk(warn_ifs[0])) \
         and isinstance(warn_ifs[0].body[-1], ast.Break)
     rep.check(ok2, R, "kpm::greens_function iterates until the residual is below atol or warns (RuntimeWarning) at max_moments",
@@ -1311,8 +1319,12 @@ def rule_kpm_numerics(rep: Report, repo: Repo):
         cval = _run(synth, lambda n_: None, R)
     # expected:  halve_first(B) * jackson_kernel(num_moments)  or  halve_first(B * jackson_kernel(num_moments)),
     # B = -2 / sqrt(1 - E^2) * sin(n arccos E) up to algebra
-    BASE = "-2 / np.sqrt(1 - energy ** 2) * np.sin(np.arange(num_moments) * np.arccos(energy))"
-    JK = "jackson_kernel(num_moments)"
+    NMH = NM
+    if helper is not None:
+        # inside a helper the count is whatever the helper's parameter is bound to: the text after binding is the caller's NM
+        NMH = NM
+    BASE = f"-2 / np.sqrt(1 - energy ** 2) * np.sin(np.arange({NMH}) * np.arccos(energy))"
+    JK = f"jackson_kernel({NMH})"
 
     def strip_jackson(e):
         if isinstance(e, ast.BinOp) and isinstance(e.op, ast.Mult):
